@@ -20,6 +20,12 @@ META = dict(
 HEADER = "From Dasp Require Import Dsp.RmsRun."
 NS = [1, 2, 3, 7, 64]
 FMTS = {0: "f32", 1: "f64", 2: "i16", 3: "u8"}
+# 10 + ConvSpec.fmt_code: to_float_frame through the conversions generated from conv.rs
+GEN_NAMES = ["i8", "i16", "I24", "i32", "I48", "i64", "u8", "u16", "U24", "u32", "U48", "u64"]
+GEN_BITS = [8, 16, 24, 32, 48, 64, 8, 16, 24, 32, 48, 64]
+for _c, _n in enumerate(GEN_NAMES):
+    FMTS[10 + _c] = _n + "(gen)"
+HARNESS_RMS_ONLY = os.path.join(F.VERIF, "harness_rms_only")
 
 
 # ---------------------------------------------------------------------------
@@ -29,6 +35,36 @@ FMTS = {0: "f32", 1: "f64", 2: "i16", 3: "u8"}
 def regenerate():
     rc, out = F.sh([sys.executable, os.path.join(F.VERIF, "translate", "sqrt_magic.py")])
     return rc == 0, out
+
+
+def rms_only_build(binname="c11r", timeout=1500):
+    """std build whose only default-featured dasp dependencies are dasp_rms and dasp_ring_buffer (feature wiring probe)"""
+    crate = HARNESS_RMS_ONLY
+    env = dict(F.harness_env())
+    env["CARGO_TARGET_DIR"] = os.path.join(crate, "target")
+    rc, out = F.sh(["cargo", "build", "--offline", "--quiet", "--bin", binname], cwd=crate, env=env, timeout=timeout)
+    path = os.path.join(crate, "target", "debug", binname)
+    return rc == 0 and os.path.exists(path), out, path
+
+
+def probe(path):
+    """the binary's own report of which sample_sqrt it was linked with: 0 IEEE (std), 1 bit trick (no_std)"""
+    rc, out, err = F.run_bin(path, ["P"])
+    try:
+        t = out[0].split()
+        return int(t[1]) if t[0] == "6" else None
+    except (IndexError, ValueError):
+        return None
+
+
+def regenerate_conversions():
+    """the conversions / companion table the integer formats' to_float_frame goes through (same helper as C03)"""
+    try:
+        from props import c03
+        err, changed = c03.regenerate()
+        return err
+    except Exception as e:   # translator crash = model cannot be regenerated
+        return f"{type(e).__name__}: {e}"
 
 
 def nostd_build(binname="c11n", timeout=1500):
@@ -157,8 +193,8 @@ def gen_history(r, fmt, chans, n, pattern, nframes, resets):
 def gen_cases(rng, tier, nostd_ok, nostd_adaptor_ok=False):
     items = []
     quick = tier == "quick"
-    n_hist = 300 if quick else 1100
-    budget = 170 if quick else 600           # frames x channels per history
+    n_hist = 260 if quick else 1100
+    budget = 140 if quick else 600           # frames x channels per history
     patterns = ["nominal", "nominal", "loudquiet", "loudquiet", "const", "edge", "large", "nominal"]
     for k in range(n_hist):
         r = rng.fork(f"h{k}")
@@ -205,6 +241,33 @@ def gen_cases(rng, tier, nostd_ok, nostd_adaptor_ok=False):
         frames = [[enc(fmt, sample_value(r, fmt, r.choice(["nominal", "loudquiet"]), i, nfr)) for _ in range(chans)] for i in range(nfr)]
         items.append(build(dict(kind="A", fmt=fmt, nostd=0, chans=chans, n=n, frames=frames, sq=int(r.below(4) == 0),
                                 k=nfr + r.below(4), pattern="adaptor")))
+    # all twelve integer formats, to_float_frame through the GENERATED conversions: quiet (within a few
+    # hundred codes of equilibrium -- a conversion that drops low bits turns these into silence), full
+    # scale, random; mono and stereo; std and no_std
+    for c, name in enumerate(GEN_NAMES):
+        b = GEN_BITS[c]
+        signed = name[0] in "iI"
+        lo, hi = (-(1 << (b - 1)), (1 << (b - 1)) - 1) if signed else (0, (1 << b) - 1)
+        mid = 0 if signed else 1 << (b - 1)
+        for chans in (1, 2):
+            for nostd in ((0, 1) if nostd_ok else (0,)):
+                r = rng.fork(f"gen{name}_{chans}_{nostd}")
+                n = r.choice([1, 2, 3, 7])
+
+                def v(kind):
+                    if kind == "quiet":
+                        return max(lo, min(hi, mid + r.choice([1, -1, 2, 3, 17, 100, 200, 255, -255, 256, -256, 257, r.range(-300, 300)])))
+                    if kind == "full":
+                        return r.choice([lo, hi, lo + 1, hi - 1, mid])
+                    return r.range(lo, hi)
+                ops = []
+                for kind in ("quiet", "full", "quiet", "random"):
+                    for _ in range(r.range(2, 3) if quick else r.range(3, 6)):
+                        ops.append(["n"] + [v(kind) for _ in range(chans)])
+                    ops.append(["c"])
+                ops += [["w"], ["r"], ["n"] + [v("quiet") for _ in range(chans)], ["c"]]
+                items.append(build(dict(kind="R", fmt=10 + c, nostd=nostd, chans=chans, first=r.below(n), init=[[0] * chans for _ in range(n)],
+                                        ops=ops, pattern="integer_format_generated_conv", resets=True)))
     # finite source (signal::from_iter) pulled well past exhaustion: the equilibrium frames that a
     # spent source yields must keep entering the window (the RMS decays to 0 within N steps);
     # is_exhausted observed before and after every call; float and integer frames; std and no_std
@@ -291,7 +354,7 @@ def eval_codes(tag, terms, costs, timeout=1700):
         os.remove(f)
     if not terms:
         return [], []
-    nsh = min(F.NCPU * 2, len(terms))
+    nsh = min(F.NCPU, len(terms))
     order = sorted(range(len(terms)), key=lambda i: -costs[i])
     shards = [[] for _ in range(nsh)]
     load = [0] * nsh
@@ -378,6 +441,10 @@ def main(rep, tier, seed):
     if not ok_gen:
         rep.violation("model_cannot_be_regenerated", {"kind": "translate/sqrt_magic.py cannot read the no_std sqrt from dasp_sample/src/ops.rs (model cannot be regenerated)",
                                                       "log": gen_log[-3000:]}, no_input=True)
+    conv_err = regenerate_conversions()
+    if conv_err:
+        rep.violation("conversions_cannot_be_regenerated", {"kind": "translate/conv2coq.py / sampletable2coq.py cannot read dasp_sample (model of to_float_frame cannot be regenerated)",
+                                                            "log": conv_err[-3000:]}, no_input=True)
     info = F.standard_proof_phase(rep, PROP, allowed_axioms=F.AX_REALS)
     ok, blog, bin_std = F.harness_build("c11")
     if not ok:
@@ -394,6 +461,30 @@ def main(rep, tier, seed):
         bins["nightly"] = bin_nightly
     else:
         rep.notes.append("C11 note: no_std dasp_signal adaptor not exercised (cargo +nightly build of harness_nightly_nostd failed): " + nnlog[-300:].replace("\n", " "))
+    # feature wiring: every binary reports which sample_sqrt it was linked with
+    ok_r, rlog, bin_rms_only = rms_only_build()
+    if not ok_r:
+        rep.violation("harness_rms_only_build", {"kind": "harness_rms_only does not build against /repo", "log": rlog[-4000:]}, no_input=True)
+    probes = {"std harness (harness/)": (bin_std, 0)}
+    if ok_n:
+        probes["no_std harness (harness_nostd/)"] = (bin_nostd, 1)
+    if ok_nn:
+        probes["no_std nightly harness (harness_nightly_nostd/)"] = (bin_nightly, 1)
+    if ok_r:
+        probes["std build with dasp_rms + dasp_ring_buffer as the only default-featured dasp crates (harness_rms_only/)"] = (bin_rms_only, 0)
+    probe_results = {}
+    for name, (path, want) in probes.items():
+        got = probe(path)
+        probe_results[name] = got
+        if got != want:
+            rep.violation("feature_wiring_" + name.split("(")[1].strip("/) ").replace("/", "_"), {
+                "kind": ("feature wiring: dasp_rms/std does not reach dasp_sample/std -- a std build computes the RMS with the no_std bit-trick square root "
+                         "(7% error instead of the correctly rounded root)" if want == 0 else
+                         "feature wiring: a build without the std features does not use the no_std square root the model assumes"),
+                "build": name, "probe": "sample_sqrt(2.0f32) == 1.5 ? 1 : 0", "expected": want, "got": got,
+                "case": {"kind": "R", "fmt": 1, "nostd": want, "chans": 1, "first": 0, "init": [[0]] * 4,
+                         "ops": [["n", f64bits(1.0)], ["n", f64bits(-1.0)], ["c"], ["r"], ["c"]]},
+                "replay": f"echo P | {path}   (prints `6 {want}` when the wiring is right); the documented example Rms::next([1.0]), next([-1.0]) must give 0.5, 0.7071067811865476"})
     fb_n, fb_bad, fb_err = floatbase.run(rng.fork("floatbase"), 1500 if tier == "quick" else 6000)
     for name, msg in fb_err:
         rep.violation("floatbase_error", {"kind": "float base validation could not be evaluated", "where": name, "log": msg}, no_input=True)
@@ -405,6 +496,24 @@ def main(rep, tier, seed):
         rep.violation("correspondence_error_" + name.replace("/", "_"), {"kind": "correspondence could not be evaluated", "where": name, "log": msg}, no_input=True)
     if errors:
         return finish(rep, info, items, [], [], {"floatbase_cases": fb_n}, None)
+    # the rms-only std build must behave exactly as the std harness (already compared with the std model)
+    rms_only_stats = {"cases": 0, "differences": 0}
+    if ok_r and probe_results.get(next(k for k in probes if "harness_rms_only" in k)) == 0:
+        sub = [i for i, it in enumerate(items) if it["kind"] == "R" and it["nostd"] == 0]
+        sub = sub[:(80 if tier == "quick" else 400)] + [i for i in sub if items[i].get("pattern") in ("doc", "integer_format_generated_conv")]
+        sub = sorted(set(sub))
+        rc2, out2, err2 = F.run_bin_parallel(bin_rms_only, [items[i]["line"] for i in sub])
+        if len(out2) != len(sub):
+            rep.violation("rms_only_run", {"kind": "harness_rms_only run incomplete", "log": err2[-1500:]}, no_input=True)
+        else:
+            diffs = [(i, o) for i, o in zip(sub, out2) if o != outl[i]]
+            rms_only_stats = {"cases": len(sub), "differences": len(diffs)}
+            for i, o in diffs[:3]:
+                rep.violation(f"rms_only_case{i}", {
+                    "kind": "feature wiring: dasp_rms/std does not reach dasp_sample/std -- the std build with dasp_rms + dasp_ring_buffer only behaves differently from the std harness / std model",
+                    "case": {k: items[i][k] for k in CASE_KEYS if k in items[i]}, "harness_line": items[i]["line"],
+                    "std_harness_observations": outl[i], "rms_only_observations": o,
+                    "replay": f"echo '<harness_line>' | {bin_rms_only}"})
     known = [e for e in F.known_findings(PROP) if e.get("kind") == "known" and e.get("id") == "K4"]
     mism = [i for i, c in enumerate(codes) if c & 1]
     verd = [i for i, c in enumerate(codes) if (c & 2) and not (c & 1)]
@@ -440,7 +549,8 @@ def main(rep, tier, seed):
     for idx in other_fail[:3]:
         small = shrink(items[idx], 2)
         p = describe(items[idx], small)
-        p["kind"] = "property verdict fails on a finite, non-overflowing history: running sum outside the error bound E of the exact sum of the last N squares, or an output negative/NaN"
+        p["kind"] = ("property verdict fails on a finite, non-overflowing history: running sum outside the error bound E of the exact sum of the last N squares, "
+                     "or an output negative/NaN, or (integer frames) a to_float_frame sample further than one rounding from amplitude / 2^(bits-1)")
         p["original_case_index"] = idx
         rep.violation(f"verdict{idx}", p)
     if k4_fail:
@@ -458,7 +568,9 @@ def main(rep, tier, seed):
             "reset_on_zero_sum_stale_window_cases": len(stale),
             "of_which_reach_sum_exactly_zero_with_nonzero_window": sum(1 for i in stale if stale_zero_sum_reached(items[i], outl[i])),
             "adaptor_finite_source_cases": sum(1 for it in items if it.get("pattern") == "adaptor_finite_past_end"),
-            "no_std_adaptor": "exercised (cargo +nightly)" if ok_nn else "not built"}
+            "no_std_adaptor": "exercised (cargo +nightly)" if ok_nn else "not built",
+            "feature_wiring_probes": probe_results, "rms_only_std_build": rms_only_stats,
+            "integer_format_generated_conv_cases": sum(1 for it in items if it.get("pattern") == "integer_format_generated_conv")}
     return finish(rep, info, items, outl, codes, dist, ok_n, bad=mism + other_fail)
 
 
@@ -486,7 +598,7 @@ def finish(rep, info, items, outl, codes, dist, nostd_ok, bad=()):
     samples = [items[i]["line"][:400] for i in (0, len(items) // 2, len(items) - 1)] if items else []
     cov = {
         "obligations": max(1, len(th)), "discharged": len(th) if info.get("coq_ok") else 0,
-        "checker_cmd": "translate/sqrt_magic.py; make -f Makefile.coq props/C11.vo (coqc 8.16.1, full .vo) + Print Assumptions audit",
+        "checker_cmd": "translate/sqrt_magic.py; translate/conv2coq.py; translate/sampletable2coq.py; make -f Makefile.coq props/C11.vo (coqc 8.16.1, full .vo) + Print Assumptions audit",
         "trusted_base": F.TRUSTED_COMMON + [
             "axioms: Coq stdlib real-number/classical axioms only (allow-list F.AX_REALS), through Reals/Flocq/Interval",
             "Flocq 4.1 BinarySingleNaN as the meaning of f32/f64 + - * / sqrt < (validated against rustc by lib/floatbase.py in this run)",
@@ -513,6 +625,17 @@ def finish(rep, info, items, outl, codes, dist, nostd_ok, bad=()):
 def replay(path):
     j = json.load(open(path))
     it = build(j["case"])
+    if str(j.get("kind", "")).startswith("feature wiring"):
+        ok_r, rlog, bin_r = rms_only_build()
+        ok_s, _, bin_s = F.harness_build("c11")
+        print("probe harness_rms_only:", probe(bin_r) if ok_r else "build failed", " probe harness:", probe(bin_s), " (0 = IEEE sqrt = std wiring intact)")
+        o, codes, errs = correspond_codes({it["nostd"]: bin_r}, [it], "c11_replay")
+        print("case:", it["line"])
+        print("harness_rms_only:", o)
+        print("check_code against the std model:", codes)
+        bad = errs or not codes or codes[0] & 3 or probe(bin_r) != 0
+        print("DISAGREE" if bad else "AGREE")
+        return 1 if bad else 0
     ok, blog, bin_std = F.harness_build("c11")
     ok_n, nlog, bin_nostd = nostd_build()
     bins = {0: bin_std, 1: bin_nostd}
